@@ -113,3 +113,7 @@ pub mod step {
     pub use crate::solver::implementations::default::verif_hooks_kktsystem as kktsystem;
     pub use crate::solver::implementations::default::verif_hooks_residuals as residuals;
 }
+
+/// chordal analysis / decomposition wrappers on plain vectors (needs `sdp`)
+#[cfg(feature = "sdp")]
+pub use crate::solver::chordal::verif_hooks as chordal;
